@@ -72,6 +72,8 @@ type c15Step struct {
 	Cls  string `json:"cls,omitempty"`  // Corrupt: crc | len | data
 	Off  int    `json:"off,omitempty"`  // Corrupt: byte offset inside the record (-1: derive from cls)
 	H    int64  `json:"h,omitempty"`    // Search
+	Sync bool   `json:"sync,omitempty"` // WriteRot: WriteSync instead of Write
+	K    int    `json:"k,omitempty"`    // WriteRot: checkHeadSizeLimit right after the k-th group write of the record
 }
 
 type c15Sched struct {
@@ -313,6 +315,28 @@ func (j *c15Journal) align(data []byte, discover bool) []c15Item {
 	return items
 }
 
+func (j *c15Journal) relabelSplit(data []byte, items []c15Item, nextData []byte, nextItems []c15Item) {
+	if len(items) == 0 {
+		return
+	}
+	last := &items[len(items)-1]
+	if last.St != "torn" || last.Size < 8 || last.Size > len(data) {
+		return
+	}
+	tail := data[len(data)-last.Size:]
+	for _, r := range j.byHdr[string(tail[:8])] {
+		if len(r.bytes) <= len(tail) || !bytes.HasPrefix(r.bytes, tail) {
+			continue
+		}
+		*last = c15Item{r.ID, r.Kind, r.H, last.Size, "hdr"}
+		if len(nextItems) > 0 && nextItems[0].St == "torn" && nextItems[0].Size == len(r.bytes)-len(tail) &&
+			nextItems[0].Size <= len(nextData) && bytes.Equal(nextData[:nextItems[0].Size], r.bytes[len(tail):]) {
+			nextItems[0] = c15Item{r.ID, r.Kind, r.H, nextItems[0].Size, "pay"}
+		}
+		return
+	}
+}
+
 // ------------------------------------------------------------------ trace writer
 
 type c15Writer struct {
@@ -488,6 +512,7 @@ func (e *c15Env) project() map[string]interface{} {
 	}
 	sort.Slice(nfs, func(a, b int) bool { return nfs[a].idx < nfs[b].idx })
 	files := []map[string]interface{}{}
+	var datas [][]byte
 	// oldest first: records are discovered in write order
 	for _, f := range nfs {
 		data, err := os.ReadFile(filepath.Join(e.dir, f.name))
@@ -495,9 +520,11 @@ func (e *c15Env) project() map[string]interface{} {
 			panic(err)
 		}
 		files = append(files, map[string]interface{}{"idx": f.idx, "items": e.jr.align(data, true), "size": len(data)})
+		datas = append(datas, data)
 	}
 	head := []c15Item{}
 	hsize := 0
+	var headData []byte
 	if hexists {
 		data, err := os.ReadFile(e.walPath())
 		if err != nil {
@@ -505,6 +532,17 @@ func (e *c15Env) project() map[string]interface{} {
 		}
 		head = e.jr.align(data, true)
 		hsize = len(data)
+		headData = data
+	}
+	// a rotated file that ends inside a record: the record was handed to the group in pieces and
+	// the rotation fell between them; the rest opens the next file (or is still buffered)
+	for k := range files {
+		its := files[k]["items"].([]c15Item)
+		nextItems, nextData := head, headData
+		if k+1 < len(files) {
+			nextItems, nextData = files[k+1]["items"].([]c15Item), datas[k+1]
+		}
+		e.jr.relabelSplit(datas[k], its, nextData, nextItems)
 	}
 	post := map[string]interface{}{"files": files, "head": head, "hsize": hsize, "hexists": hexists, "extra": extra,
 		"open": e.wal != nil, "buffered": 0, "gmin": -1, "gmax": -1, "hsynced": e.synced, "nrec": len(e.jr.recs)}
@@ -527,18 +565,43 @@ func (e *c15Env) headSize() int64 {
 // ------------------------------------------------------------------ the real WAL, tapped
 
 // every WALEncoder.Encode ends in exactly one Write of the framed record
+// The tap between WALEncoder and the group.  It records what reaches the group, Write call by
+// Write call, and assumes nothing about how the product splits a record over them; after the
+// k-th group write of a record it can run a hook (the schedule's "what the group's ticker
+// goroutine does at this very moment").
 type c15Tee struct {
-	g  io.Writer
-	jr *c15Journal
-	on bool
-	nw []*c15Rec
+	g      io.Writer
+	jr     *c15Journal
+	on     bool
+	chunks [][]byte
+	after  func(k int)
 }
 
 func (t *c15Tee) Write(p []byte) (int, error) {
+	n, err := t.g.Write(p)
 	if t.on {
-		t.nw = append(t.nw, t.jr.add(p))
+		t.chunks = append(t.chunks, append([]byte{}, p...))
+		if t.after != nil {
+			t.after(len(t.chunks))
+		}
 	}
-	return t.g.Write(p)
+	return n, err
+}
+
+// take returns what reached the group since the last take as ONE record (the caller made one WAL
+// write in between) together with the sizes of the group writes; nil if nothing did.
+func (t *c15Tee) take() (*c15Rec, []int) {
+	sizes := []int{}
+	if len(t.chunks) == 0 {
+		return nil, sizes
+	}
+	var all []byte
+	for _, c := range t.chunks {
+		all = append(all, c...)
+		sizes = append(sizes, len(c))
+	}
+	t.chunks = nil
+	return t.jr.add(all), sizes
 }
 
 var c15Tees sync.Map // *BaseWAL -> *c15Tee
@@ -557,6 +620,7 @@ func (e *c15Env) openTapped() error {
 	if err := w.Start(); err != nil {
 		return err
 	}
+	tee.take() // EndHeightMessage{0} of OnStart, if it was written
 	e.wal = w
 	return nil
 }
@@ -632,13 +696,27 @@ func (e *c15Env) recJSON(r *c15Rec) map[string]interface{} {
 	return map[string]interface{}{"id": r.ID, "kind": r.Kind, "h": r.H, "size": r.Size}
 }
 
-func (e *c15Env) doWrite(kind string, big, sync bool) {
+func (e *c15Env) doWrite(kind string, big, sync bool) { e.doWriteRot(kind, big, sync, 0) }
+
+// rotK > 0: run the real checkHeadSizeLimit right after the rotK-th group write of this record
+func (e *c15Env) doWriteRot(kind string, big, sync bool, rotK int) {
 	if e.wal == nil || e.failed {
 		return
 	}
 	m := e.mark()
 	tee := e.tee()
-	tee.nw = nil
+	tee.chunks = nil
+	rot, rotated := 0, false
+	if rotK > 0 {
+		g := e.wal.group
+		tee.after = func(k int) {
+			if k == rotK {
+				before := g.MaxIndex()
+				c15CheckHead(g)
+				rot, rotated = k, g.MaxIndex() != before
+			}
+		}
+	}
 	msg := e.msg(kind, big)
 	var err error
 	if sync {
@@ -646,14 +724,15 @@ func (e *c15Env) doWrite(kind string, big, sync bool) {
 	} else {
 		err = e.wal.Write(msg)
 	}
-	if len(tee.nw) > 1 {
-		e.sh.t.Fatalf("C15: one WAL write produced %d group writes", len(tee.nw))
-	}
-	if len(tee.nw) == 0 {
+	tee.after = nil
+	r, gw := tee.take()
+	if r == nil {
 		// nothing reached the group although the call returned: the record exists only as a promise
-		tee.nw = []*c15Rec{e.jr.addPhantom(kind, e.curH)}
+		r = e.jr.addPhantom(kind, e.curH)
 	}
-	r := tee.nw[0]
+	if rotated {
+		e.synced = 0
+	}
 	if kind == "eh" {
 		e.topH = e.curH
 		if sync && err == nil {
@@ -669,7 +748,8 @@ func (e *c15Env) doWrite(kind string, big, sync bool) {
 	if sync {
 		ev = "WriteSync"
 	}
-	e.emit(m, map[string]interface{}{"ev": ev, "rec": e.recJSON(r), "err": c15Err(err)})
+	e.emit(m, map[string]interface{}{"ev": ev, "rec": e.recJSON(r), "err": c15Err(err), "nw": len(gw), "gw": gw,
+		"rot": rot, "rotated": rotated})
 }
 
 func (e *c15Env) doFlush() {
@@ -1199,6 +1279,8 @@ func (e *c15Env) step(s c15Step) {
 		e.doWrite(s.Kind, s.Big, false)
 	case "WriteSync":
 		e.doWrite(s.Kind, s.Big, true)
+	case "WriteRot":
+		e.doWriteRot(s.Kind, s.Big, s.Sync, s.K)
 	case "Flush":
 		e.doFlush()
 	case "FlushHalf":
@@ -1403,7 +1485,11 @@ func (sh *c15Shared) runRandom(k int) {
 		}
 		switch x := rng.Intn(20); {
 		case x < 5:
-			e.doWrite("in", rng.Intn(12) == 0, false)
+			if rng.Intn(4) == 0 {
+				e.doWriteRot("in", false, rng.Intn(2) == 0, 1) // the size check fires right behind the group write
+			} else {
+				e.doWrite("in", rng.Intn(12) == 0, false)
+			}
 		case x < 7:
 			e.doWrite("rs", rng.Intn(12) == 0, false)
 		case x < 10:
@@ -1512,15 +1598,15 @@ type c15TapWAL struct {
 	e *c15Env
 }
 
-func (w *c15TapWAL) emitOp(m int, ev string, nw []*c15Rec, err error) {
+func (w *c15TapWAL) emitOp(m int, ev string, err error) {
 	row := map[string]interface{}{"ev": ev, "err": c15Err(err)}
-	if len(nw) == 0 && ev != "FlushAndSync" {
-		nw = []*c15Rec{w.e.jr.addPhantom("in", w.e.curH)}
-	}
-	if len(nw) == 1 {
-		row["rec"] = w.e.recJSON(nw[0])
-	} else if ev != "FlushAndSync" {
-		w.e.sh.t.Fatalf("C15: node WAL op %s wrote %d records", ev, len(nw))
+	if ev != "FlushAndSync" {
+		r, gw := w.e.tee().take()
+		if r == nil {
+			r = w.e.jr.addPhantom("in", w.e.curH)
+		}
+		row["rec"] = w.e.recJSON(r)
+		row["nw"], row["gw"], row["rot"], row["rotated"] = len(gw), gw, 0, false
 	}
 	w.e.emit(m, row)
 }
@@ -1528,18 +1614,16 @@ func (w *c15TapWAL) emitOp(m int, ev string, nw []*c15Rec, err error) {
 func (w *c15TapWAL) Write(msg WALMessage) error {
 	e := w.e
 	m := e.mark()
-	tee := e.tee()
-	tee.nw = nil
+	e.tee().chunks = nil
 	err := e.wal.Write(msg)
-	w.emitOp(m, "Write", tee.nw, err)
+	w.emitOp(m, "Write", err)
 	return err
 }
 
 func (w *c15TapWAL) WriteSync(msg WALMessage) error {
 	e := w.e
 	m := e.mark()
-	tee := e.tee()
-	tee.nw = nil
+	e.tee().chunks = nil
 	err := e.wal.WriteSync(msg)
 	if err == nil {
 		e.synced = e.headSize()
@@ -1547,7 +1631,7 @@ func (w *c15TapWAL) WriteSync(msg WALMessage) error {
 	if eh, ok := msg.(EndHeightMessage); ok {
 		e.topH = eh.Height
 	}
-	w.emitOp(m, "WriteSync", tee.nw, err)
+	w.emitOp(m, "WriteSync", err)
 	return err
 }
 
@@ -1558,7 +1642,7 @@ func (w *c15TapWAL) FlushAndSync() error {
 	if err == nil {
 		e.synced = e.headSize()
 	}
-	w.emitOp(m, "FlushAndSync", nil, err)
+	w.emitOp(m, "FlushAndSync", err)
 	return err
 }
 
